@@ -830,7 +830,7 @@ func (g *Gen) randomStep() {
 		if !ok {
 			continue
 		}
-		if op.Recv == KPoint && op.Writes && !op.RecvInput && rng.Bool(cfg.PZeroRecv) {
+		if op.Recv == KPoint && op.Writes && !op.RecvInput && !op.Dynamic && rng.Bool(cfg.PZeroRecv) {
 			// "var v Point" as the receiver (unless it is also an input)
 			isArg := false
 			for _, i := range c.P {
@@ -1288,7 +1288,7 @@ func (g *Gen) enumAlias() {
 	w := g.r.W
 	for d := 0; d < g.cfg.EnumDraws; d++ {
 		for _, op := range Alphabet {
-			if op.Pseudo || op.Ctor {
+			if op.Pseudo || op.Ctor || op.Dynamic {
 				continue
 			}
 			if op.Multi {
@@ -1475,7 +1475,7 @@ func (g *Gen) enumMisuse() {
 				continue
 			}
 			// converse: zero-value pure receiver with valid inputs must not panic
-			if op.Writes && !op.RecvInput {
+			if op.Writes && !op.RecvInput && !op.Dynamic {
 				c, ok := g.buildCall(op)
 				if ok {
 					isArg := false
@@ -1607,7 +1607,7 @@ func (g *Gen) enumMisuse() {
 				for j := range c.P {
 					c.P[j] = good[rng.Intn(len(good))]
 				}
-				if op.RecvInput {
+				if op.RecvInput || op.Dynamic {
 					c.R = good[rng.Intn(len(good))]
 				} else {
 					c.R = rng.Intn(len(w.P))
